@@ -32,7 +32,7 @@ LEVEL_NOTE = ("Trusted: Coq kernel + vm_compute; hand-written model coq/Model/C1
               "run; interleaving is at message granularity (each handler runs to completion on the transport "
               "thread, the guard reads two flags) - finer thread timing is outside the model and is exercised only "
               "by parking the transport thread at hook points; the key exchange itself is abstracted to the outcome "
-              "of _verify_key (C06/C07); GSS-API key exchange is exempt from host key checking as in the code; "
+              "of _verify_key (C06/C07); a NEGOTIATED GSS-API key exchange is exempt from host key checking as in the code (never driven: no GSS-API here), a merely advertised one is not (driven); "
               "multi-step (group-exchange) kex is modelled but not driven.")
 TECHNIQUE = "Coq proof (invariant + trace monitor over an event-driven state machine) + AST ordering checks + scripted loopback differential"
 
@@ -140,6 +140,20 @@ def make_classes(w):
             if self.c17_hook is not None:
                 self.c17_hook(self, name)
 
+        c17_kex = None          # name of the NEGOTIATED kex algorithm
+        c17_peer_kex = ()       # kex names the peer ADVERTISED
+
+        def _parse_kex_init(self, m):
+            r = p.Transport._parse_kex_init(self, m)
+            eng = type(self.kex_engine)
+            names = sorted(k for k, v in self._kex_info.items() if v is eng)
+            self.c17_kex = ("gss:" if eng.__module__.endswith("kex_gss") else "") + (names[0] if names else eng.__name__)
+            try:
+                self.c17_peer_kex = tuple(w.Message(bytes(self.remote_kex_init)[17:]).get_list())
+            except Exception:
+                pass
+            return r
+
         def _negotiate_keys(self, m):
             self._point("kexinit")
             return p.Transport._negotiate_keys(self, m)
@@ -183,7 +197,7 @@ CRED_CODE = {"CNone": 0, "CPassword": 1, "CPublickey": 2, "CInteractive": 3}
 class Session:
     """one loopback connection with full recording"""
 
-    def __init__(self, w, host_key=None, inject=None, client_cls=None, client_kwargs=None):
+    def __init__(self, w, host_key=None, inject=None, client_cls=None, client_kwargs=None, advertise=None):
         p = w.paramiko
         self.w = w
         self.csock, self.ssock = w.TapSocket(), w.TapSocket()
@@ -193,6 +207,14 @@ class Session:
         self.srv = w.Srv()
         self.ts = w.ScriptServer(self.ssock, packetizer_class=w.rec_packetizer(self.slog), server_sig_algs=False)
         self.ts.c17_inject = inject
+        if advertise:
+            # the server's KEXINIT lists extra kex names (it cannot run them; they are never negotiated)
+            self.ts._preferred_kex = tuple(self.ts._preferred_kex) + tuple(advertise)
+            # (the server validates its own list against _kex_info when it has no moduli)
+            info = dict(self.ts._kex_info)
+            for n in advertise:
+                info.setdefault(n, info["diffie-hellman-group14-sha256"])
+            self.ts._kex_info = info
         self.ts.add_server_key(host_key or w.rsa)
         cls = client_cls or w.HookClient
         self.tc = cls(self.csock, packetizer_class=self._client_packetizer(), **(client_kwargs or {}))
@@ -527,6 +549,9 @@ def tconnect_cases(ctx, w):
 # --------------------------------------------------------------------------
 # 3. SSHClient.connect
 
+ADVERTISE = [None, "gss", "unknown"]
+ADVERTISE_NAMES = {None: None, "gss": ["gss-group14-sha1-toWM5Slw5Ew8Mqkay+al2g==", "gss-gex-sha1-toWM5Slw5Ew8Mqkay+al2g=="],
+                   "unknown": ["frobnicate-kex@example.com"]}
 KNOWN = ["none", "same", "other-same-type", "other-type-only", "hashed-same", "hashed-other",
          "same-under-other-name", "same+other-type", "hashed-other-type-only"]
 MISMATCH = ("other-same-type", "other-type-only", "hashed-other", "hashed-other-type-only")
@@ -537,17 +562,28 @@ def cconnect_cases(ctx, w):
     p = w.paramiko
     from paramiko.hostkeys import HostKeys
     rows = []
-    combos = [(k, where, pol, port) for k in KNOWN for where in ("user", "system") for pol in POLICIES
+    combos = [(k, where, pol, port, None) for k in KNOWN for where in ("user", "system") for pol in POLICIES
               for port in (22, 2222)]
+    # servers whose KEXINIT advertises kex names the client cannot run (a GSS-API one, an unknown one)
+    adv_combos = [(k, where, pol, port, adv) for adv in ADVERTISE if adv for k in KNOWN for where in ("user", "system")
+                  for pol in POLICIES for port in (22, 2222)]
+    if ctx.thorough:
+        combos += [c for c in adv_combos if c[4] == "gss"] + ctx.rng.sample(
+            [c for c in adv_combos if c[4] != "gss"], 40)
+    else:
+        combos_adv = [c for c in adv_combos if c[1] == "user" and c[3] == 22 and
+                      ((c[0] in MISMATCH and c[2] in ("autoadd", "reject")) or
+                       (c[0] == "none" and c[2] in ("reject", "custom-raise", "autoadd")) or
+                       (c[0] == "same" and c[2] == "reject"))]
     if not ctx.thorough:
         # always: Reject / AutoAdd on the user store, and every stored-key mismatch under every accepting policy
         must = [c for c in combos if c[1] == "user" and (c[2] in ("reject", "autoadd") or
                                                          (c[0] in MISMATCH and c[2] in ("warning", "custom-accept")))]
         rest = [c for c in combos if c not in must]
-        combos = must + ctx.rng.sample(rest, 24)
+        combos = must + ctx.rng.sample(rest, 24) + combos_adv
     kid = {"rsa": (1, 5), "rsa2": (1, 6), "ed": (2, 7)}
-    for known, where, pol, port in combos:
-        s = Session(w)
+    for known, where, pol, port, adv in combos:
+        s = Session(w, advertise=ADVERTISE_NAMES.get(adv))
         calls, accepted = [], []
 
         def rec(base, accept=None):
@@ -640,11 +676,26 @@ def cconnect_cases(ctx, w):
             polm = {"reject": "PReject", "autoadd": "PAutoAdd", "warning": "PWarning",
                     "custom-raise": "(PCustom false)", "custom-accept": "(PCustom true)"}[pol]
             bracket = ids["[host17]:%d" % port]
-            text = "(%s, (%s, %s), (1, %d, %d), %s, (false, %s), (1, 5))" % (
-                coq(hm), sysm, usrm, bracket, port, polm, coq(kex_ok))
-            case = {"known_hosts": known, "where": where, "policy": pol, "port": port}
+            neg_gss = bool(s.tc.c17_kex and str(s.tc.c17_kex).startswith("gss"))      # what was NEGOTIATED
+            adv_gss = any(str(x).startswith("gss-") for x in s.tc.c17_peer_kex)          # what the peer ADVERTISED
+            text = "(%s, (%s, %s), (1, %d, %d), %s, (%s, %s, %s), (1, 5))" % (
+                coq(hm), sysm, usrm, bracket, port, polm, coq(neg_gss), coq(adv_gss), coq(kex_ok))
+            case = {"known_hosts": known, "where": where, "policy": pol, "port": port,
+                    "server_advertises_kex": ADVERTISE_NAMES.get(adv), "negotiated_kex": s.tc.c17_kex}
+            if adv and kex_ok and (adv_gss != (adv == "gss")):
+                ctx.fail("harness-advertised-kex-not-seen", "the server's extra kex names did not reach the client",
+                         case=case, observed=list(s.tc.c17_peer_kex))
+            if neg_gss:
+                ctx.fail("gss-kex-negotiated-without-support", "a gss kex was negotiated with a server that cannot "
+                         "run it", case=case, observed=s.tc.c17_kex)
+            if kex_ok and bool(s.tc.gss_kex_used) != neg_gss:
+                ctx.fail("gss-kex-used-flag-without-negotiated-gss-kex",
+                         "Transport.gss_kex_used is set although no GSS-API key exchange was negotiated "
+                         "(SSHClient.connect skips host key checking on this flag)", case=case,
+                         expected=neg_gss, observed=bool(s.tc.gss_kex_used))
             rows.append((case, text, impl))
-            ctx.count(("cconnect", known, where, pol, port), nontrivial=True, kind="sshclient-" + known)
+            ctx.count(("cconnect", known, where, pol, port, adv), nontrivial=True,
+                      kind="sshclient-" + known + ("+adv-" + adv if adv else ""))
             # ---- oracle ----
             has_entry = bool(entries) and known != "same-under-other-name"
             key_matches = known in ("same", "hashed-same", "same+other-type")
@@ -702,19 +753,31 @@ def run(ctx):
                 "(quick: seeded 60 % sample) or after the handshake, or signing other data; Transport.connect over "
                 "hostkey argument {none, same, other same type, other types} x bad signature x credential; "
                 "SSHClient.connect(sock=) over 9 known_hosts contents x {user, system} x 5 policies x {22, 2222} "
-                "(quick: all Reject/AutoAdd user cases, every stored-key mismatch x accepting policy, + 24 sampled; thorough: all 180).  Every case is a distinct "
+                "(quick: all Reject/AutoAdd user cases, every stored-key mismatch x accepting policy, + 24 sampled + 14 with a server advertising gss-X / unknown kex names; thorough: all 180, all 180 again with a gss-advertising server, 40 with an unknown name).  Every case is a distinct "
                 "script and reaches the guard / gating / comparison code, hence non-trivial.")
     ctx.trusted += ["model coq/Model/C17.v is hand-written; tied to transport.py / client.py / auth_handler.py by "
                     "gen/c17.py (AST ordering checks, fail-closed) and this scripted differential run",
                     "thread interleaving finer than one message handler is outside the model",
                     "the host key comparison result CCompare is reconstructed from connect()'s exception"]
     ctx.assumptions += ["each Transport.run handler runs to completion before the next message is read (single "
-                        "transport thread)", "GSS-API key exchange is exempt from host key checking (as in the code)"]
+                        "transport thread)", "a NEGOTIATED GSS-API key exchange is exempt from host key checking (as in the code); a peer that only advertises gss-X names is not"]
     ctx.prove()
     import logging
     logging.getLogger("paramiko").setLevel(logging.CRITICAL + 10)     # expected failures are noisy
     w = build_world(ctx)
     make_classes(w)
+    # constants this check and the model write by hand, cross-checked against the live modules
+    import paramiko.common as pc
+    import paramiko.client as pcl
+    live = {"MSG_IGNORE": 2, "MSG_UNIMPLEMENTED": 3, "MSG_DEBUG": 4, "MSG_SERVICE_REQUEST": 5, "MSG_SERVICE_ACCEPT": 6,
+            "MSG_KEXINIT": 20, "MSG_NEWKEYS": 21, "MSG_USERAUTH_REQUEST": 50, "MSG_USERAUTH_SUCCESS": 52}
+    for k, v in live.items():
+        if getattr(pc, k, None) != v:
+            ctx.disagree("message number %s differs from the one the check / model assume" % k, model=v,
+                         impl=getattr(pc, k, None))
+    if getattr(pcl, "SSH_PORT", None) != 22:
+        ctx.disagree("SSH_PORT differs from the default port of model hostkey_name", model=22,
+                     impl=getattr(pcl, "SSH_PORT", None))
 
     def model(run_fn, case_type, cases, what, rows_):
         """the model comparison never stops the implementation-level oracle (a translator / proof failure
@@ -758,7 +821,7 @@ def run(ctx):
           "client event trace differs from model run", [({"script": r[0], "events": r[1]}, None, r[2]) for r in rows])
     model("run_tconnect", "(option key * (bool * bool * bool) * key)", [(t, i) for _, t, i in trows],
           "Transport.connect differs from model transport_connect", trows)
-    model("run_cconnect", "(hmap * (state * state) * (Z * Z * Z) * policy * (bool * bool) * key)",
+    model("run_cconnect", "(hmap * (state * state) * (Z * Z * Z) * policy * (bool * bool * bool) * key)",
           [(t, i) for _, t, i in crows], "SSHClient.connect differs from model client_connect", crows)
     ctx.exhaustive = bool(ctx.thorough)
 
